@@ -33,4 +33,10 @@ func run(c *hlib.Ctx) {
 			x.f(c)
 		}
 	}
+	// self3 (round 7) runs AFTER all earlier kinds, with its own budget (weight 8 against the 127
+	// of the kinds above), so that the PRNG streams of the earlier kinds stay what they were.
+	fixedSelf(c)
+	for i, n := 0, (c.N*8+126)/127; i < n; i++ {
+		kindSelf3(c)
+	}
 }
